@@ -99,7 +99,9 @@ func (r *runState) step(i int, op Op) bool {
 		return r.apply(op)
 	}
 	var done bool
+	r.inFault = true
 	r.underFault(*f, func() { done = r.apply(op) })
+	r.inFault = false
 	countFault(r.h, done)
 	if f.How != "lock-released" && op.K != "ladd" && op.K != "lremove" && op.K != "ledit" {
 		r.noteLeftBehind()
@@ -237,6 +239,28 @@ func (r *runState) underFault(f Fault, run func()) {
 	default:
 		run()
 	}
+}
+
+// restartable: reopenable() takes "active" from the server's memory; where a failed statement
+// left a stored Active flag behind the memory, a stored link naming that session may join a
+// session that is stored inactive - the state in which the conditional restart is not performed.
+func (r *runState) restartable() bool {
+	if !reopenable(r.w) {
+		return false
+	}
+	if len(r.exAgents) == 0 {
+		return true
+	}
+	rows, err := pvx.LinkRows(r.w.SQL)
+	if err != nil {
+		return false
+	}
+	for _, lr := range rows {
+		if r.exAgents[fmt.Sprintf("%08x", lr.Parent)] || r.exAgents[fmt.Sprintf("%08x", lr.Child)] {
+			return false
+		}
+	}
+	return true
 }
 
 // ---------------------------------------------------------------- capabilities of the calling thread
@@ -478,6 +502,8 @@ func underFaultSig(h History, v *core.Violation, rerunWithout func(History) *cor
 			continue
 		case strings.HasSuffix(p, "-differs") && strings.HasPrefix(v.Sig, "agent|"):
 			p = "recorded-value-differs"
+		case strings.HasSuffix(p, "-differs") && ops[h.Fault.At].K == "ledit" && strings.Contains(v.Sig, "listener|http|"):
+			p = "edit-not-persisted" // (after a second edit the stored value is that of the first, not the original one)
 		}
 		if p == "https" {
 			p = "http" // one listener kind as far as the database is concerned
